@@ -1,13 +1,9 @@
 /- GENERATED from the Go source by /verif/extract on every run. Do not edit. -/
 import TunnoxModel.Model.PredPrelude
+import TunnoxModel.Gen.Models
 import TunnoxModel.Model.C04Types
 open Tunnox.PredPrelude
 namespace Gen
-
-namespace models
-def MappingStatusActive : String := "active"
-def MappingStatusInactive : String := "inactive"
-end models
 
 namespace models.PortMapping
 def IsExpired (now : Nat) (m : Tunnox.C04.PortMapping) : Bool :=
